@@ -1,6 +1,7 @@
 import Verif.Drv.Runner
 import Verif.Model.Chain
 import Verif.Model.ChainF
+import Verif.Model.ChainFF
 import Verif.Model.Ancestor
 
 namespace Verif.Drv
@@ -47,6 +48,12 @@ def chainStep (s : ChainSt) (ws : List String) : ChainSt × String :=
     | some ids =>
       let (m', e) := addBlocks s.U s.m ids
       ({ s with m := m', full := (addBlocksF s.U ⟨s.m, s.full⟩ ids).1.full }, mgrLine (errStr e) m')
+    | none => (s, "bad-op")
+  | "addff" :: ids =>     -- AddBlocks while the first store Flush it reaches fails (Model/ChainFF.lean)
+    match nats? ids with
+    | some ids =>
+      let (m', e) := addBlocksFF s.U s.m ids
+      ({ s with m := m', full := (addBlocksFFF s.U ⟨s.m, s.full⟩ ids).1.full }, mgrLine (errStr e) m')
     | none => (s, "bad-op")
   | "addv2" :: n :: ids =>
     match nat? n, nats? ids with
